@@ -161,7 +161,7 @@ def build_harness(flavour, name, quiet=False):
         os.path.getmtime(exe) < os.path.getmtime(archive)
     if need:
         cmd = cc + [f for f in fl if f.startswith("-fsanitize") or f.startswith("-fno-sanitize")] + \
-            ["-g", obj, archive, "-o", exe, "-lpthread"]
+            ["-g", "-no-pie", obj, archive, "-o", exe, "-lpthread"]
         p = subprocess.run(cmd, capture_output=True, text=True)
         if p.returncode != 0:
             sys.stderr.write("HARNESS LINK FAILED %s\n%s\n" % (name, p.stderr[-6000:]))
